@@ -271,6 +271,30 @@ func runAlias(line []byte, rec *recorder) {
 	}
 	// instances used in turn, each rewound once: every instance delivers what it delivers when it is used alone in the same way
 	{
+		// ... among them one whose units have no payload byte at all (unit start packets filled by their adaptation field): nothing is
+		// delivered for it, before and after the others have used the shared payload pool
+		stuff := []byte{}
+		for k := 0; k < 3; k++ {
+			p := make([]byte, 188)
+			p[0], p[1], p[2], p[3], p[4], p[5] = 0x47, 0x40|0x01, 0x23, 0x30|byte(k), 183, 0
+			for j := 6; j < 188; j++ {
+				p[j] = 0xff
+			}
+			stuff = append(stuff, p...)
+		}
+		// (used right after an instance that delivers one small PES per call, so that the pool item last held a PES)
+		pesOnly := []byte{}
+		for k := 0; k < 12; k++ {
+			p := make([]byte, 188)
+			p[0], p[1], p[2], p[3] = 0x47, 0x40|0x02, 0x00, 0x10|byte(k)
+			copy(p[4:], []byte{0, 0, 1, 0xe0, 0, 0, 0x80, 0, 0})
+			for j := 13; j < 188; j++ {
+				p[j] = byte(0x10 + k)
+			}
+			pesOnly = append(pesOnly, p...)
+		}
+		strs := append([][]byte{pesOnly, stuff}, streams...)
+		n := len(strs)
 		plan := make([]int, n)
 		for i := range plan {
 			plan[i] = r.intn(8)
@@ -282,13 +306,13 @@ func runAlias(line []byte, rec *recorder) {
 			return "d:" + jsonDigest(d)
 		}
 		for i := 0; i < n; i++ { // alone
-			d := astits.NewDemuxer(context.Background(), bytes.NewReader(streams[i]))
+			d := astits.NewDemuxer(context.Background(), bytes.NewReader(strs[i]))
 			for c := 0; c < plan[i]; c++ {
 				d.NextData()
 			}
 			d.Rewind()
 			seq := []string{}
-			for c := 0; c < len(streams[i])/188+20; c++ {
+			for c := 0; c < len(strs[i])/188+20; c++ {
 				x, err := d.NextData()
 				seq = append(seq, seqOf(x, err))
 				if err == astits.ErrNoMorePackets {
@@ -301,7 +325,7 @@ func runAlias(line []byte, rec *recorder) {
 		seqs := make([][]string, n)
 		fin := make([]bool, n)
 		for i := range ds {
-			ds[i] = astits.NewDemuxer(context.Background(), bytes.NewReader(streams[i]))
+			ds[i] = astits.NewDemuxer(context.Background(), bytes.NewReader(strs[i]))
 		}
 		for c := 0; c < 8; c++ {
 			for i := range ds {
@@ -320,7 +344,7 @@ func runAlias(line []byte, rec *recorder) {
 				}
 				x, err := ds[i].NextData()
 				seqs[i] = append(seqs[i], seqOf(x, err))
-				if err == astits.ErrNoMorePackets || len(seqs[i]) > len(streams[i])/188+20 {
+				if err == astits.ErrNoMorePackets || len(seqs[i]) > len(strs[i])/188+20 {
 					fin[i] = true
 					left--
 				}
@@ -328,6 +352,22 @@ func runAlias(line []byte, rec *recorder) {
 		}
 		for i := range ds {
 			events = append(events, M{"ev": "again", "inst": 2000 + i, "phase": 1, "seq": seqs[i]})
+		}
+		// the payload-less instance once more, several times, each time right behind a fresh instance that has just delivered two PES
+		for rep := 0; rep < 8; rep++ {
+			dp := astits.NewDemuxer(context.Background(), bytes.NewReader(pesOnly))
+			dp.NextData()
+			dp.NextData()
+			d := astits.NewDemuxer(context.Background(), bytes.NewReader(stuff))
+			seq := []string{}
+			for c := 0; c < 10; c++ {
+				x, err := d.NextData()
+				seq = append(seq, seqOf(x, err))
+				if err == astits.ErrNoMorePackets {
+					break
+				}
+			}
+			events = append(events, M{"ev": "again", "inst": 2001, "phase": 2 + rep, "seq": seq})
 		}
 		thePoolLog.take()
 	}
@@ -390,6 +430,17 @@ func richStream(r *rng, units int) []byte {
 		k := tableKinds[1+r.intn(len(tableKinds)-1)]
 		m := randTable(r, k, r.intn(3), 40)
 		emit(pidForKind(k), append([]byte{0}, twinSection(m)...))
+		if i%3 == 1 {
+			// an adaptation-only packet (no payload) carrying transport private data: what NextPacket returned for it stays what it was
+			p := make([]byte, 188)
+			n := 1 + r.intn(40)
+			p[0], p[1], p[2], p[3], p[4], p[5], p[6] = 0x47, 0x1a, 0xbc, 0x20, 183, 0x02, byte(n)
+			copy(p[7:], r.bytes(n))
+			for j := 7 + n; j < 188; j++ {
+				p[j] = 0xff
+			}
+			out = append(out, p...)
+		}
 	}
 	return out
 }
